@@ -74,6 +74,7 @@ type Exec struct {
 	callSeq  int
 	inSpec   int
 	inQuant  int
+	idxUses  map[string]map[string]bool
 	constGlobals map[string]bool
 }
 
@@ -88,6 +89,7 @@ type Frame struct {
 	top      bool
 	retVals  [][]Val
 	retState []*State
+	retBlock []*ssa.BasicBlock
 	defers   []deferred
 	headSt   map[*ssa.BasicBlock]*State // state right after the loop-head havoc
 	headEnv  map[*ssa.BasicBlock]map[string]Val
